@@ -5,11 +5,12 @@
    The arithmetic record [ops], [solve_edge] (solveQuadraticEdge), [gain2], [best_edge] and
    [solve_2d] (solveQuadratic2DBox) are the ones of C08Model.v (same free functions of
    Impl/AnalyticProblems.h); this file adds
-     * solveQuadratic2DTriangle, literally (thresholds 1e-12, maxGain = -1, post-hoc snapping),
+     * solveQuadratic2DTriangle, literally (repaired version of /repo ab716aec: relative determinant
+       test, current point kept when feasible and no edge improves, post-hoc snapping),
      * the alpha / per-example-sum part of QpMcSimplexDecomp::updateSMO incl. updateVarsum,
      * the alpha part of QpMcBoxDecomp::updateSMO,
      * QpSparseArray rows as finite maps: operator() lookup and the merge scan the solvers use.
-   Three further constants are needed besides the record: -1.0, 1e-14 and 1e-6.
+   Three further constants are needed besides the record: -DBL_MAX, 1e-14 and 1e-6.
      * maximumGainQuadratic2D / maximumGainQuadratic2DOnLine (working-set selection gains).
    Variables are addressed as (example, p) pairs; the C++ flat index and its shrinking permutation
    are bookkeeping that does not enter the constraints. *)
@@ -20,7 +21,7 @@ Import ListNotations.
 Section Model.
 Variable A : Type.
 Variable O : ops A.
-Variable mone : A.                    (* -1.0  : initial maxGain of the triangle solver *)
+Variable lowest : A.                  (* -DBL_MAX : initial maxGain of the triangle solver for an infeasible start *)
 Variable tiny : A.                    (* 1e-14 : updateVarsum *)
 Local Notation zero := (o_zero O).
 Local Notation add := (o_add O).
@@ -42,10 +43,16 @@ Definition tri_edges (ai aj gi gj Qii Qij Qjj M : A) : list (A * A) :=
   let e2 := solve_edge O zero (sub ggj ggi) (sub (add Qii Qjj) (mul two Qij)) zero M in
   [ (zero, e0); (e1, zero); (sub M e2, e2) ].
 
-(* double maxGain = -1; maxIndex = 0; for(k) if(gain > maxGain) ... *)
+(* bool feasible = alphai >= 0 && alphaj >= 0 && alphai + alphaj <= maxSum   (x >= y spelled !(x < y)) *)
+Definition tri_feasible (ai aj M : A) : bool :=
+  negb (ltb ai zero) && negb (ltb aj zero) && negb (ltb M (add ai aj)).
+
+(* since /repo commit ab716aec: EdgeSolution best = {alphai, alphaj};
+   maxGain = feasible ? 0.0 : -DBL_MAX;  for(k) if(gain > maxGain) ...
+   (before: maxGain = -1 and best = solution[0]: a losing edge candidate could be accepted) *)
 Definition tri_best (ai aj gi gj Qii Qij Qjj M : A) : A * A :=
   let es := tri_edges ai aj gi gj Qii Qij Qjj M in
-  best_edge O ai aj gi gj Qii Qij Qjj es mone (hd (ai, aj) es).
+  best_edge O ai aj gi gj Qii Qij Qjj es (if tri_feasible ai aj M then zero else lowest) (ai, aj).
 
 (* "improve numerical stability": snapping into the corners / onto the axes *)
 Definition tri_snap (M : A) (c : A * A) : A * A :=
@@ -61,7 +68,8 @@ Definition tri_free (ai aj gi gj Qii Qij Qjj M : A) : bool * (A * A) :=
   let muj := div (sub (mul Qii gj) (mul Qij gi)) det in
   let oi := add ai mui in
   let oj := add aj muj in
-  (ltb thr det && (ltb zero oi && ltb zero oj && ltb (add oi oj) M), (oi, oj)).
+  (* since ab716aec the rank test is relative: detQ > 1.e-12 * Qii * Qjj *)
+  (ltb (mul (mul thr Qii) Qjj) det && (ltb zero oi && ltb zero oj && ltb (add oi oj) M), (oi, oj)).
 
 Definition solve_tri (ai aj gi gj Qii Qij Qjj M : A) : A * A :=
   let f := tri_free ai aj gi gj Qii Qij Qjj M in
@@ -196,7 +204,7 @@ Fixpoint sa_scan (es : list (nat * A)) (def : A) (p w : nat) : list A :=
 
 End Model.
 
-Arguments tri_edges {A}. Arguments tri_best {A}. Arguments tri_snap {A}. Arguments tri_free {A}.
+Arguments tri_edges {A}. Arguments tri_feasible {A}. Arguments tri_best {A}. Arguments tri_snap {A}. Arguments tri_free {A}.
 Arguments solve_tri {A}. Arguments upd2 {A}. Arguments asum {A}. Arguments mkmc {A}. Arguments al {A}.
 Arguments vs {A}. Arguments upd_varsum {A}. Arguments simplex_step1 {A}. Arguments simplex_step2 {A}.
 Arguments Op1 {A}. Arguments Op2 {A}. Arguments simplex_step {A}. Arguments simplex_run {A}.
